@@ -667,7 +667,7 @@ func (p *Pipe) ObserveMany(faults []string) {
 		var snap obsSnap
 		select {
 		case snap = <-p.doneCh:
-		case <-time.After(5 * time.Second):
+		case <-time.After(20 * time.Second):
 			snap = obsSnap{store: p.storeProj(), unpub: p.unpubIDs(), puts: 0}
 			snap.store = append(snap.store, map[string]interface{}{"id": -99, "t": 0, "n": 0, "ver": 0, "ref": 0, "eq": 0}) // observer never processed this entry
 		}
